@@ -124,6 +124,14 @@ SUMMARY = {
  "C18-r6": "time-lock key stream re-created per 168-byte chunk: every chunk is masked with the first block (payloads over 168 bytes change on the wire, library round trips still work)",
  "C19-r6": "share combination through a const table built with from_raw_unchecked, which means Montgomery form in one backend and plain integers in the other: blst combines wrongly when identifiers straddle 31/32",
  "C20-r6": "split builds its polynomial from a key-material buffer whose chunked fill (over 256 bytes, i.e. threshold >= 10) writes nothing: shares are identical on every call",
+ "C02-r7": "PoP-scheme signature tag of G2Impl ends in _NUL_ (copy of the Basic tag): Basic and PoP signatures of G2Impl coincide, relabelling verifies, PoP differs from the IETF value",
+ "C06-r7": "AggregateSignature::from_signatures rewritten as a single pass with split_first: a single signature is aggregated (TryFrom still refuses it)",
+ "C07-r7": "MultiPublicKey::from_public_keys dedups neighbouring equal keys before summing: [pk1,pk2,pk2] accumulates to pk1+pk2",
+ "C09-r7": "pop_verify maps core_verify's errors through a match whose catch-all arm is Ok: the identity proof (and the identity key) verify",
+ "C13-r7": "encrypt_time_lock skips the key prefix for an EMPTY identifier under MessageAugmentation: such ciphertexts never open",
+ "C14-r7": "shared ElGamal transcript helper zips 5 labels with 6 points: commitment r2 never absorbed, message_proof unbound",
+ "C16-r7": "ProofCommitment::try_from(&[u8]) slices value.get(..len) instead of testing the length: surplus trailing bytes accepted",
+ "C17-r7": "SecretKeyEnum::from_le_bytes pre-checks the length as 32..=33 and copy_from_slice panics on 32-byte input with a valid tag",
 }
 
 def main():
